@@ -135,6 +135,7 @@ class Env:
         self.hold_open = hold_open
         self.intr = False
         self.child_stdin = []
+        self.child_stdin_fwd = []
         self.child_stdin_closed = 0
         self.kills = 0
         self.kills_after_return = 0
@@ -285,8 +286,11 @@ def make_classes(sched, env):
             return self._read("err", n)
 
         def _write_proc_stdin(self, data):
-            sched.gate(getattr(threading.current_thread(), "actor", "main"), "write_stdin")
+            actor = getattr(threading.current_thread(), "actor", "main")
+            sched.gate(actor, "write_stdin")
             env.child_stdin.append(data)
+            if actor == "stdin":
+                env.child_stdin_fwd.append(data)  # forwarded by the stdin handler (as opposed to an interrupt sent by main)
 
         def close_proc_stdin(self):
             sched.gate("stdin", "close_stdin")
@@ -424,6 +428,7 @@ def run_schedule(schedule, out=(), err=(), in_script=None, in_tty=False, pty=Fal
             obs["main_done"] = "main" in sched.finished
             obs["mirror"] = (out_stream.getvalue(), err_stream.getvalue())
             obs["child_stdin"] = b"".join(env.child_stdin)
+            obs["child_stdin_fwd"] = b"".join(env.child_stdin_fwd)
             obs["closes"] = env.child_stdin_closed
             obs["kills"] = env.kills
             obs["kills_after_return"] = env.kills_after_return
